@@ -417,6 +417,7 @@ void chains(const std::string & tn, int len_homog, int len_period)
       const int len = homog ? len_homog : len_period;
       c.desc = [&, p, q, len] { return std::string("init=") + f.name + " program: (" + mach.ops[p].name + (homog ? "" : "; " + mach.ops[q].name) + mc::fmt(") repeated to length %d", len); };
       c.param("len", len);
+      c.param("program", double(c.idx));
       State<G> s = s0;
       double worst_c = 0, worst_m = 0;
       bool fin = true, canon = true;
@@ -444,8 +445,7 @@ void chains(const std::string & tn, int len_homog, int len_period)
           at_m    = n;
         }
       }
-      (void)at_c;
-      (void)at_m;
+      if (mc::replaying()) printf("  worst constraint/(n+1) at step %d, worst matrix error/(n+1) at step %d (register magnitudes %.3g %.3g)\n", at_c, at_m, s.mag[0], s.mag[1]);
       c.require("finite", fin);
       c.require("SO3 part keeps q_w>=0", canon);
       c.judge("|constraint|<=(n+1)e-14", worst_c, 1e-14);
